@@ -24,7 +24,7 @@ CONFIG = dict(
     driver_root="Cell2v.Driver.C16",
     audit="Audit/C16.lean",
     required_theorems=["broadcast_lists_current_members", "count_eq", "order_is_join_order", "at_most_once_per_front",
-                       "isolation", "isolation_history", "leave_absent_is_noop", "remove_is_erase_first", "removed_or_never_added_not_listed", "service_is_a_map", "front_fanout", "bcast_local_delivery", "push_reaches_only_the_addressed_front",
+                       "isolation", "isolation_history", "leave_absent_is_noop", "remove_is_erase_first", "removed_or_never_added_not_listed", "service_is_a_map", "front_fanout", "bcast_local_delivery", "push_reaches_only_the_addressed_front", "closed_connection_does_not_affect_others",
                        "push_inside_session_add_reaches_new_connection", "push_inside_session_remove_skips_removed"],
     harness_pkg="./c16",
     mode="diff",
@@ -32,7 +32,7 @@ CONFIG = dict(
     runs={
         "quick": [dict(name="main", env={"VERIF_N": "1200"}, timeout=240),
                   dict(name="exh4", test="TestExhaustive", env={"VERIF_DEPTH": "4"}, timeout=240)],
-        "thorough": [dict(name="main", env={"VERIF_N": "20000", "VERIF_BIG": "80", "VERIF_SESS": "2000", "VERIF_RACE": "400", "VERIF_TWO": "600"}, timeout=1500),
+        "thorough": [dict(name="main", env={"VERIF_N": "20000", "VERIF_BIG": "80", "VERIF_SESS": "2000", "VERIF_RACE": "400", "VERIF_TWO": "600", "VERIF_CLOSED": "600"}, timeout=1500),
                      dict(name="seed2", env={"VERIF_N": "10000", "VERIF_BIG": "80", "VERIF_SESS": "1000"}, seed_offset=1000, timeout=1500),
                      dict(name="exh6", test="TestExhaustive", env={"VERIF_DEPTH": "6"}, timeout=1500)],
     },
@@ -41,7 +41,7 @@ CONFIG = dict(
          "channels (AllocTempChannel/FreeTempChannel), fronts f1,f2,f3, ids 1..7 plus 0 and 2^32-1; joins (a quarter of them duplicates of a "
          "listed id), leaves (two thirds aimed at the first/middle/last/random element of a real group, the rest at random incl. absent ids, "
          "missing groups and channels), broadcasts, create/fetch/delete, session add/remove, direct ClientSessions.PushMsg and sys.pushmsg with "
-         "live/unknown/duplicate ids, ~2% malformed lines; every case ends with a broadcast on each channel; corpus first; large-group cases (9 quick / 80 thorough per run): one group of 130-600 ids from a counter (a third with a run of duplicates) emptied from the newest end, the oldest end or at random through range ops, with a broadcast after every chunk and single steps around sizes 32/64/128/212; concurrent-membership cases (40 / 400): while a broadcast is in flight — after the channel took a front's id list, before the push layer reads it — another goroutine issues a leave (mostly of a middle member) or join on that same front; every front must receive the snapshot; two-front-end cases (60 / 600): two front-end services in one process whose connections are numbered alike but differ in which are live, ClientSessions.PushMsg and sys.pushmsg (through the one shared sys entry object) addressed to each in turn in both orders, broadcasts of channels spanning the issuing front-end, the second one and a remote-only third, issued through the real impls.PushMessageByIds (requests sent onward are captured from ns.RequestEx and handed to the addressed service); three quarters of the ordinary cases also host a second front-end; session-callback cases (60 / 2000): a recording ISessionsHandler whose OnSessionAdd pushes (ClientSessions.PushMsg) or joins+broadcasts (through the real push impl, in place) to lists naming the connection being added, and whose OnSessionRemove pushes to lists naming the one being removed; plus every history "
+         "live/unknown/duplicate ids, ~2% malformed lines; every case ends with a broadcast on each channel; corpus first; large-group cases (9 quick / 80 thorough per run): one group of 130-600 ids from a counter (a third with a run of duplicates) emptied from the newest end, the oldest end or at random through range ops, with a broadcast after every chunk and single steps around sizes 32/64/128/212; concurrent-membership cases (40 / 400): while a broadcast is in flight — after the channel took a front's id list, before the push layer reads it — another goroutine issues a leave (mostly of a middle member) or join on that same front; every front must receive the snapshot; two-front-end cases (60 / 600): two front-end services in one process whose connections are numbered alike but differ in which are live, ClientSessions.PushMsg and sys.pushmsg (through the one shared sys entry object) addressed to each in turn in both orders, broadcasts of channels spanning the issuing front-end, the second one and a remote-only third, issued through the real impls.PushMessageByIds (requests sent onward are captured from ns.RequestEx and handed to the addressed service); three quarters of the ordinary cases also host a second front-end; closed-connection cases (60 / 600): a registered connection whose Push returns an error (socket closed, not yet removed; the recording fake session does that after `sclose`) listed at the first, a middle and the last position of multi-id ClientSessions.PushMsg / sys.pushmsg calls and among the members of a broadcast, on the issuing and on the second front-end; session-callback cases (60 / 2000): a recording ISessionsHandler whose OnSessionAdd pushes (ClientSessions.PushMsg) or joins+broadcasts (through the real push impl, in place) to lists naming the connection being added, and whose OnSessionRemove pushes to lists naming the one being removed; plus every history "
          "of length <= 4 (quick) / 6 (thorough) over a 7-operation alphabet followed by a broadcast. A case is non-trivial when its observation "
          "is a value (channel identity, tuples, deliveries); distinct = distinct (op, observation) pairs",
     trusted_base=[
